@@ -18,6 +18,7 @@ CLAIMED = {
  "C07": ("DESIGN.md §4 C07", "One real Update under every subset of failing storage calls — interface level (WriteOps/GetLatest/Set/Close through a wrapping store) and driver level (every database/sql call of the contract model) — followed by a fault-free read and a fault-free second Update: accepted implies the read returns the same bytes, a failed read of the previous checkpoint never leads to signing, no transaction or write handle stays open (the follow-up on a one-connection pool would otherwise be reported as deadlock), and the second update obeys the reference from the last committed state.", "A-db; error values are representative (plain error, Unavailable, Internal)", TECH + "; fault pattern as nondeterministic choices"),
  "C08": ("DESIGN.md §4 C08", "(a) Invariant preservation: after every accepted update the stored bytes verify again under the log's key (so nothing stored can fail its own next verification). (b) From any state whose stored checkpoint belongs to the honest log, an honest step (sizes up to the bound, proof produced by the real tlog.ProveTree, real VerifyConsistency inlined) is accepted. One listed known finding (stored size 0).", "tree sizes bounded (8 quick / 32 thorough); signers assumed not to fail", TECH),
  "C09": ("DESIGN.md §4 C09", "The (bytes, error) result of the real Update is compared, for all 64-bit sizes, with an executable reference of the tlog-witness rule order written in the harness; the proof verdict is tied to the real verifier by H-VC.", "reference model is hand-written from the spec; carve-outs exactly as in the property text", TECH + "; differential against a reference model"),
+ "C11": ("DESIGN.md §4 C11", "The real parseBody, Proof.Marshal/Unmarshal and the feedbastion body writer are executed over SMT-LIB strings (cvc5): (i) a body written from an arbitrary decimal old size < 2^64, k non-empty hashes and arbitrary checkpoint bytes parses back to exactly those; (ii) for an arbitrary body (<= 4000 bytes) success implies the first line is exactly 'old <decimal fitting 64 bits>', every proof line is accepted by the base64 decoder, the blank separator exists and the checkpoint is the rest; (iii) Unmarshal(Marshal(p)) = p for k = 0..K; (iv) the writer's output parses back.", "k <= 8 quick / 64 thorough for the round trips, <= 2 / 4 proof lines for the arbitrary-body direction; base64 is an uninterpreted codec (dec(enc x) = x, enc x free of CR/LF); ReadLine's 4096-byte buffer case is outside the bound", TECH + "; theory of strings"),
  "C12": ("DESIGN.md §4 C12", "Frame condition: an update naming log a leaves every other slot bit-identical on every path.", "identity derivations (config/bastion/distributor) checked in H-ID", TECH),
  "C20": ("DESIGN.md §4 C20", "Counter increments recorded through a recording MetricFactory are compared with the outcome on every path: attempt iff known log, success iff accepted, invalid-consistency iff ErrInvalidProof, inconsistent iff ErrRootMismatch, no others, label = log id.", "per-step statement; histories follow by summation", TECH),
 }
